@@ -30,6 +30,15 @@ func forall(lo, hi int, f func(int) bool) bool {
 }
 func built(b strings.Builder) string { return b.String() }
 func fresh(x any) bool               { return true }
+func atHead[T any](x T) T            { return x }
+
+type ev struct{}
+
+func ncalls(name string) int                     { return 0 }
+func callArg[T any](name string, k int, i int) T { var z T; return z }
+func writeSeq(evs ...ev) bool                    { return true }
+func evByte(c byte) ev                           { return ev{} }
+func evOpt(cond bool, e ev) ev                   { return ev{} }
 func eq[T any](a, b T) bool          { return reflect.DeepEqual(a, b) }
 func has[K comparable, V any](m map[K]V, k K) bool {
 	_, ok := m[k]
@@ -295,10 +304,63 @@ func isQuote(c byte) bool { return c == '"' || c == '\'' || c == '`' }
 //@   props C10 C11 C07
 //@   ensures [value] result == specHexVal(ch)
 
+// utf8Dec: the RFC 3629 decoder of one encoded scalar value: -1 for anything that is not the shortest encoding of a
+// Unicode scalar value (overlong forms, surrogates, values above 10FFFF, stray continuation bytes).
+//
+//xvc:bvonly
+func utf8Cont(b byte) bool { return b&0xC0 == 0x80 }
+
+//xvc:bvonly
+func utf8Dec(b []byte) int {
+	if len(b) == 1 {
+		if b[0] < 0x80 {
+			return int(b[0])
+		}
+		return -1
+	}
+	if len(b) == 2 {
+		v := (int(b[0])&0x1F)<<6 | (int(b[1]) & 0x3F)
+		if b[0]&0xE0 == 0xC0 && utf8Cont(b[1]) && v >= 0x80 {
+			return v
+		}
+		return -1
+	}
+	if len(b) == 3 {
+		v := (int(b[0])&0x0F)<<12 | (int(b[1])&0x3F)<<6 | (int(b[2]) & 0x3F)
+		if b[0]&0xF0 == 0xE0 && utf8Cont(b[1]) && utf8Cont(b[2]) && v >= 0x800 && !(0xD800 <= v && v <= 0xDFFF) {
+			return v
+		}
+		return -1
+	}
+	if len(b) == 4 {
+		v := (int(b[0])&0x07)<<18 | (int(b[1])&0x3F)<<12 | (int(b[2])&0x3F)<<6 | (int(b[3]) & 0x3F)
+		if b[0]&0xF8 == 0xF0 && utf8Cont(b[1]) && utf8Cont(b[2]) && utf8Cont(b[3]) && v >= 0x10000 && v <= 0x10FFFF {
+			return v
+		}
+		return -1
+	}
+	return -1
+}
+
+// Every Unicode scalar value is encoded as its well-formed UTF-8 sequence (decoder written from RFC 3629).
 //@ func encodeUTF8
 //@   props C10 C11 C07
 //@   mode bv
 //@   ensures [len] 1 <= len(result) && len(result) <= 4
+//@   requires [scalar@C07] 0 <= codePoint && !(0xD800 <= codePoint && codePoint <= 0xDFFF)
+//@   ensures [roundtrip@C07] implies(codePoint <= 0x10FFFF, utf8Dec(result) == codePoint)
+//@   ensures [ascii@C07] implies(codePoint < 0x80, len(result) == 1 && result[0] == byte(codePoint))
+//@   ensures [high@C07] implies(codePoint >= 0x80, forall(0, len(result), func(k int) bool { return result[k] >= 0x80 }))
+
+// specStay: code points that cannot be written raw into a double-quoted literal (from ECMA-262 12.9.4: the quote,
+// the backslash, the line terminators CR and LF) and surrogate code units (no UTF-8 form of their own).
+func specStay(v int) bool {
+	return v == '"' || v == '\\' || v == '\n' || v == '\r' || (0xD800 <= v && v <= 0xDFFF)
+}
+
+//@ func mustStayEscaped
+//@   props C07 C11
+//@   ensures [class@C07] result == specStay(codePoint)
 
 //@ func (l *Lexer) ReadChar
 //@   props C10 C11
@@ -385,7 +447,9 @@ func isQuote(c byte) bool { return c == '"' || c == '\'' || c == '`' }
 //@   ensures [type] result1 == token.INT
 
 //@ func (l *Lexer) readRawString
-//@   props C10 C11
+//@   props C10 C11 C07
+//@   loop 1 each [plain@C07] implies(!(byteAt(l.input, atHead(l.position)+1) == '\\' && byteAt(l.input, atHead(l.position)+2) == '`'), writeSeq(evByte(byteAt(l.input, atHead(l.position)+1))))
+//@   loop 1 each [backtick@C07] implies(byteAt(l.input, atHead(l.position)+1) == '\\' && byteAt(l.input, atHead(l.position)+2) == '`', writeSeq(evByte('`')))
 //@   requires lexInv(l) && l.position < len(l.input)
 //@   modifies l.position, l.readPosition, l.CurrentChar, l.Line, l.Column
 //@   loop 1 invariant [cursor] lexInv(l) && old(l.position) <= l.position
@@ -393,16 +457,29 @@ func isQuote(c byte) bool { return c == '"' || c == '\'' || c == '`' }
 //@   ensures [cursor] lexInv(l)
 //@   ensures [progress] l.position > old(l.position)
 
+// C07: what one iteration of the scanner writes for each kind of string element (c1, c2, ... are the bytes after the
+// cursor at the head of the iteration): ordinary bytes verbatim (a double quote gets a backslash: the printer re-quotes
+// with double quotes), unknown escapes verbatim, \xHH / \uHHHH decoded only when the value can be written raw.
 //@ func (l *Lexer) readString
-//@   props C10 C11
+//@   props C10 C11 C07
 //@   requires lexInv(l) && l.position < len(l.input)
 //@   modifies l.position, l.readPosition, l.CurrentChar, l.Line, l.Column
 //@   loop 1 invariant [cursor] lexInv(l) && old(l.position) <= l.position
 //@   loop 1 decreases len(l.input) - l.position
 //@   loop 2 invariant [cursor] lexInv(l) && old(l.position) < l.position && atEntry(l.position) <= l.position
 //@   loop 2 decreases len(l.input) - l.position
+//@   loop 1 each [plain@C07] implies(byteAt(l.input, atHead(l.position)+1) != '\\', writeSeq(evOpt(byteAt(l.input, atHead(l.position)+1) == '"', evByte('\\')), evByte(byteAt(l.input, atHead(l.position)+1))))
+//@   loop 1 each [escape.keep@C07] implies(byteAt(l.input, atHead(l.position)+1) == '\\' && byteAt(l.input, atHead(l.position)+2) != 'x' && byteAt(l.input, atHead(l.position)+2) != 'u', writeSeq(evByte('\\'), evByte(byteAt(l.input, atHead(l.position)+2))))
+//@   loop 1 each [escape.hex@C07] implies(byteAt(l.input, atHead(l.position)+1) == '\\' && byteAt(l.input, atHead(l.position)+2) == 'x' && specHex(byteAt(l.input, atHead(l.position)+3)) && specHex(byteAt(l.input, atHead(l.position)+4)) && !specStay(specHexVal(byteAt(l.input, atHead(l.position)+3))*16+specHexVal(byteAt(l.input, atHead(l.position)+4))) && specHexVal(byteAt(l.input, atHead(l.position)+3))*16+specHexVal(byteAt(l.input, atHead(l.position)+4)) < 0x80, writeSeq(evByte(byte(specHexVal(byteAt(l.input, atHead(l.position)+3))*16+specHexVal(byteAt(l.input, atHead(l.position)+4))))))
+//@   loop 1 each [escape.hex.kept@C07] implies(byteAt(l.input, atHead(l.position)+1) == '\\' && byteAt(l.input, atHead(l.position)+2) == 'x' && specHex(byteAt(l.input, atHead(l.position)+3)) && specHex(byteAt(l.input, atHead(l.position)+4)) && (specStay(specHexVal(byteAt(l.input, atHead(l.position)+3))*16+specHexVal(byteAt(l.input, atHead(l.position)+4))) || specHexVal(byteAt(l.input, atHead(l.position)+3))*16+specHexVal(byteAt(l.input, atHead(l.position)+4)) >= 0x80), writeSeq(evByte('\\'), evByte('x'), evByte(byteAt(l.input, atHead(l.position)+3)), evByte(byteAt(l.input, atHead(l.position)+4))))
+//@   loop 1 each [escape.hex.invalid@C07] implies(byteAt(l.input, atHead(l.position)+1) == '\\' && byteAt(l.input, atHead(l.position)+2) == 'x' && !(specHex(byteAt(l.input, atHead(l.position)+3)) && specHex(byteAt(l.input, atHead(l.position)+4))), writeSeq(evByte('\\'), evByte('x')))
+//@   loop 1 each [escape.u4@C07] implies(byteAt(l.input, atHead(l.position)+1) == '\\' && byteAt(l.input, atHead(l.position)+2) == 'u' && byteAt(l.input, atHead(l.position)+3) != '{' && specHex(byteAt(l.input, atHead(l.position)+3)) && specHex(byteAt(l.input, atHead(l.position)+4)) && specHex(byteAt(l.input, atHead(l.position)+5)) && specHex(byteAt(l.input, atHead(l.position)+6)) && !specStay(specHexVal(byteAt(l.input, atHead(l.position)+3))*4096+specHexVal(byteAt(l.input, atHead(l.position)+4))*256+specHexVal(byteAt(l.input, atHead(l.position)+5))*16+specHexVal(byteAt(l.input, atHead(l.position)+6))), ncalls("encodeUTF8") == 1 && callArg[int]("encodeUTF8", 0, 0) == specHexVal(byteAt(l.input, atHead(l.position)+3))*4096+specHexVal(byteAt(l.input, atHead(l.position)+4))*256+specHexVal(byteAt(l.input, atHead(l.position)+5))*16+specHexVal(byteAt(l.input, atHead(l.position)+6)))
+//@   loop 1 each [escape.u4.kept@C07] implies(byteAt(l.input, atHead(l.position)+1) == '\\' && byteAt(l.input, atHead(l.position)+2) == 'u' && byteAt(l.input, atHead(l.position)+3) != '{' && specHex(byteAt(l.input, atHead(l.position)+3)) && specHex(byteAt(l.input, atHead(l.position)+4)) && specHex(byteAt(l.input, atHead(l.position)+5)) && specHex(byteAt(l.input, atHead(l.position)+6)) && specStay(specHexVal(byteAt(l.input, atHead(l.position)+3))*4096+specHexVal(byteAt(l.input, atHead(l.position)+4))*256+specHexVal(byteAt(l.input, atHead(l.position)+5))*16+specHexVal(byteAt(l.input, atHead(l.position)+6))), writeSeq(evByte('\\'), evByte('u'), evByte(byteAt(l.input, atHead(l.position)+3)), evByte(byteAt(l.input, atHead(l.position)+4)), evByte(byteAt(l.input, atHead(l.position)+5)), evByte(byteAt(l.input, atHead(l.position)+6))))
+//@   loop 1 each [escape.u4.invalid@C07] implies(byteAt(l.input, atHead(l.position)+1) == '\\' && byteAt(l.input, atHead(l.position)+2) == 'u' && byteAt(l.input, atHead(l.position)+3) != '{' && !(specHex(byteAt(l.input, atHead(l.position)+3)) && specHex(byteAt(l.input, atHead(l.position)+4)) && specHex(byteAt(l.input, atHead(l.position)+5)) && specHex(byteAt(l.input, atHead(l.position)+6))), writeSeq(evByte('\\'), evByte('u')))
+//@   loop 6 each [copy@C07] writeSeq(evByte(b))
+//@   loop 7 each [copy@C07] writeSeq(evByte(b))
 //@   loop 3 invariant [frame] true
-//@   loop 4 invariant [frame] true
+//@   loop 4 invariant [frame] value >= 0
 //@   loop 5 invariant [frame] true
 //@   loop 6 invariant [frame] true
 //@   loop 7 invariant [frame] true
